@@ -181,7 +181,7 @@ def write_evidence(pid, tier, seed, mod, jobs, results, wall, nviol, nknown):
             )
         )
     per_job = [
-        dict(job=j["name"], verdict=r.get("verdict"), state=r.get("state"), queries=r.get("queries"), solver_s=r.get("solver_s"), realisations=r.get("realisations"), paths=r.get("paths"), wall_s=r.get("wall_s"), expect=j.get("expect", "held"))
+        dict(job=j["name"], levels=r.get("levels"), verdict=r.get("verdict"), state=r.get("state"), queries=r.get("queries"), solver_s=r.get("solver_s"), realisations=r.get("realisations"), paths=r.get("paths"), wall_s=r.get("wall_s"), expect=j.get("expect", "held"))
         for j, r in zip(jobs, results)
     ]
     files = meta.get("files", [])
